@@ -235,6 +235,12 @@ def _run(loop, params, chooser):
 
     def on_step():
         trans[0] += 1
+        if params.get('src_dies_on_stop') and info['stopped']:
+            # the source never answers again once a stop was requested (a blocking queue, a
+            # database that stays locked): process() must still return when the items in
+            # flight are through
+            for k in [k for k in env.completions if k.startswith('src:')]:
+                env.remove(k)
         states.append(h64(canon()))
         return None
 
@@ -379,6 +385,9 @@ def configs(tier):
         for j in range(K + 1):
             extra.append(dict(K=K, T=1, conc=1, fail_src=j))
             extra.append(dict(K=K, T=1, conc=2, fail_src=j, src_latency=True))
+    # a source that stops answering as soon as a stop is requested
+    for K, T, conc in ((1, 1, 1), (2, 1, 2), (2, 2, 2), (3, 1, 2)):
+        extra.append(dict(K=K, T=T, conc=conc, src_latency=True, src_dies_on_stop=True))
     # work items that are falsy
     extra.append(dict(K=2, T=1, conc=1, falsy=[0], no_faults=True))
     extra.append(dict(K=3, T=2, conc=2, falsy=[1, 2]))
